@@ -455,6 +455,21 @@ Definition d_upd (c : chain) (u : pupd) : bool :=
 Definition d_full (c : chain) (ups : list pupd) : bool :=
   chain_wf c && nodupb (map pu_key ups) && forallb (fun u => d_upd c u || d_add c u) ups.
 
+(* D_multi: D_full without repeated placeholder names in an updated ${property} version (several updates at
+   once, literal versions, ${property} versions and added managed dependencies mixed) *)
+Definition prop_names_nodup (c : chain) (u : pupd) : bool :=
+  match original_dependency c (pu_key u) with
+  | Some (_, d) =>
+    if contains_property (dl_ver d)
+    then match generate_property_patches (dl_ver d) (pu_to u) with Ok (_, true) => nodupb (names (dl_ver d)) | _ => true end
+    else true
+  | None => true
+  end.
+
+Definition d_multi (c : chain) (ups : list pupd) : bool :=
+  chain_wf c && nodupb (map pu_key ups) &&
+  forallb (fun u => (d_upd c u && prop_names_nodup c u) || d_add c u) ups.
+
 (* D_prop: ONE update of a ${property} version on which generatePropertyPatches succeeds, no placeholder
    name twice in the version; otherwise as d_upd. *)
 Definition d_prop (c : chain) (u : pupd) : bool :=
